@@ -33,7 +33,7 @@ CLASSES = [
     "unbalanced_const", "unknown_terminal", "unbalanced_callable_always", "unbalanced_callable_window", "epsilon_const", "epsilon_callable",
     "epsilon_callable_novec", "epsilon_time", "opt_dt", "opt_terminal_psi", "opt_multiplier_low", "opt_multiplier_high", "opt_drag_zero", "opt_drag_high",
     "opt_step_size", "opt_tolerance", "opt_gpu", "opt_sparse_unknown", "opt_sparse_umfpack", "opt_sparse_pardiso", "opt_sparse_cupy",
-    "terminal_inside_film", "terminal_outside_film", "seed_other_device", "A_wrong_shape_1col", "A_wrong_shape_flat", "A_wrong_length",
+    "terminal_inside_film", "terminal_outside_film", "seed_other_device", "seed_other_device_shared_mesh", "seed_device_modified_in_place", "A_wrong_shape_1col", "A_wrong_shape_flat", "A_wrong_length",
     "polygon_self_intersecting", "polygon_two_points", "polygon_bad_shape", "film_unnamed", "hole_unnamed", "hole_duplicate_names",
     "terminal_duplicate_names", "terminal_unnamed", "probe_outside_film", "probe_in_hole", "probe_bad_shape",
 ]
@@ -238,6 +238,25 @@ def run_case(spec):
                     so = sim.build_options(dict(o), output_file=None)
                     seed_solution = tdgl.solve(odev, so, applied_vector_potential=0.05)
                     # the seed run itself is legitimate: reset the watch
+                    tm.tempdirs.clear(); tm.handler_paths.clear(); tm.stages.clear()
+                    rec.counts.clear()
+                    before_tmp = set(os.listdir(tempfile.gettempdir()))
+                elif cls in ("seed_other_device_shared_mesh", "seed_device_modified_in_place"):
+                    # a different device derived without re-meshing: copy (shares the Mesh object) with another layer / probes
+                    so = sim.build_options(dict(o), output_file=None)
+                    if cls == "seed_other_device_shared_mesh":
+                        odev = device.copy(with_mesh=True)
+                        which = int(rng.integers(3))
+                        if which == 0:
+                            odev.layer.london_lambda *= float(rng.choice([2.0, 1 + 1e-3, 1 + 1e-6]))
+                        elif which == 1:
+                            odev.layer.gamma = odev.layer.gamma + 1.0
+                        else:
+                            odev.layer.coherence_length *= 1.0 + 1e-6
+                        seed_solution = tdgl.solve(odev, so, applied_vector_potential=0.05)
+                    else:
+                        seed_solution = tdgl.solve(device, so, applied_vector_potential=0.05)
+                        device.layer.london_lambda *= 1.5  # edited after the seed was computed
                     tm.tempdirs.clear(); tm.handler_paths.clear(); tm.stages.clear()
                     rec.counts.clear()
                     before_tmp = set(os.listdir(tempfile.gettempdir()))
